@@ -65,7 +65,10 @@ fn run(args: &[String]) -> i32 {
         let mut code = 0;
         for id in ids {
             match property(id) {
-                Some(p) => code = code.max(driver::selftest_determinism(&*p, tier, n, print)),
+                Some(p) => {
+                    p.process_warm_up();
+                    code = code.max(driver::selftest_determinism(&*p, tier, n, print))
+                }
                 None => return usage(),
             }
         }
@@ -78,6 +81,7 @@ fn run(args: &[String]) -> i32 {
             return 2;
         }
     };
+    prop.process_warm_up();
     match args.get(1).map(|s| s.as_str()) {
         Some("--replay") => match args.get(2) {
             Some(path) => driver::replay(&*prop, path, args.iter().any(|a| a == "--machine")),
